@@ -545,6 +545,17 @@ func (x *Exec) solve(res *FnResult, opt Options) {
 				}
 				s := x.compose(prelude, x.paths[in.ref.path], in.ref.idx, opt.TimeoutMS, nil, in.ref.path)
 				t1 := time.Now()
+				// first a short attempt in the lean context (see below): goals that are plain arithmetic over the path
+				// are decided at once there, whatever the quantified hypotheses do to a solver's search
+				if lean := leanScript(strings.Replace(s, fmt.Sprintf("(set-option :timeout %d)", opt.TimeoutMS), "(set-option :timeout 5000)", 1)); lean != s {
+					o0, _, sv0, _ := raceSolvers([]string{"z3", "z3-new"}, lean, []checkRef{in.ref}, 8000)
+					if c, ok := o0[in.ref.idx]; ok && c.status == "unsat" {
+						in.status = "unsat"
+						in.solver = sv0
+						in.ms = time.Since(t1).Milliseconds()
+						continue
+					}
+				}
 				o2, raw2, sv, _ := raceSolvers([]string{"z3-new", "cvc5", "z3"}, s, []checkRef{in.ref}, opt.TimeoutMS+10000)
 				if c, ok := o2[in.ref.idx]; ok && (c.status == "unsat" || c.status == "sat") {
 					in.status = c.status
